@@ -120,6 +120,13 @@ def cases(tier, seed):
             if d == 3 and not (len(set(nds)) <= 2 and set(nds) <= {3, 4}):
                 continue
             cs.append({'scen': 'c18_ctor', 's': {'d': d, 'ndims': list(nds), 'B': 2 if d == 3 else B}})
+    # constructor from a dense array and a requested shape: element counts
+    for nsrc, d in ((1, 1), (1, 2), (2, 1), (2, 2), (3, 2), (2, 3)):
+        for ttm in (False, True):
+            if ttm and d == 3:
+                continue
+            cs.append({'scen': 'c18_ctor_dense', 's': {'nsrc': nsrc, 'd': d, 'ttm': ttm, 'B': 2 if (ttm and d > 1) or d == 3 else 3, 'Bsrc': 4}})
+    cs.append({'scen': 'c18_ctor_dense', 's': {'nsrc': 2, 'd': 2, 'ttm': False, 'B': 3, 'Bsrc': 4, 'numpy': True}})
     return cs
 
 
